@@ -10,8 +10,6 @@ import json
 import os
 import re
 import shutil
-import signal
-import subprocess
 import time
 
 from .. import common as C
@@ -247,72 +245,9 @@ def feature_tags(prog):
     return sorted(tags)
 
 
-# --------------------------------------------------------------------------- child processes
-# Same observation points and limits as R.compile_capy / R.link_and_run (release CLI, cwd = case directory,
-# --mod-dir /repo, RLIMIT_CPU / RLIMIT_AS, wall-clock watchdog), but started WITHOUT a python preexec_fn:
-# C.run_proc forks under the GIL, which serialises the 3 process starts per program over all worker threads
-# (measured: 64 x /bin/true in 16 threads 10.7 s with run_proc, 2.9 s this way). The limits are set by `ulimit` in /bin/sh.
-
-def fast_proc(cmd, cwd, cpu_s, mem_gb=4, wall_s=None):
-    wall_s = wall_s or cpu_s * 10 + 10
-    sh = 'ulimit -t %d; ulimit -v %d; ulimit -c 0; exec "$0" "$@"' % (cpu_s, int(mem_gb * (1 << 20)))
-    t0 = time.time()
-    try:
-        p = subprocess.Popen(["/bin/sh", "-c", sh] + list(cmd), cwd=cwd, stdin=subprocess.DEVNULL, stdout=subprocess.PIPE, stderr=subprocess.PIPE,
-                             start_new_session=True, env=C.ENV_BASE)
-    except OSError as e:
-        raise C.Inconclusive("cannot start %s: %s" % (cmd[0], e))
-    timed_out = False
-    try:
-        out, err = p.communicate(timeout=wall_s)
-    except subprocess.TimeoutExpired:
-        timed_out = True
-        try:
-            os.killpg(p.pid, signal.SIGKILL)
-        except ProcessLookupError:
-            pass
-        out, err = p.communicate()
-    rc = p.returncode
-    sig = -rc if rc is not None and rc < 0 else 0
-    wall = time.time() - t0
-    cpu_exceeded = sig in (signal.SIGXCPU, signal.SIGKILL) and not timed_out and wall >= cpu_s * 0.9
-    return C.ProcResult(rc, sig, out.decode("utf-8", "replace"), err.decode("utf-8", "replace"), timed_out, cpu_exceeded, wall)
-
-
-def compile_fast(workdir, files, cpu_s=60):
-    R.write_files(workdir, files)
-    shutil.rmtree(os.path.join(workdir, "out"), ignore_errors=True)
-    r = fast_proc([C.CLI, "build", "main.capy", "--mod-dir", C.REPO, "--no-exec", "--color", "never"], workdir, cpu_s, mem_gb=6)
-    c = R.Compile()
-    c.rc, c.sig, c.out, c.err = r.rc, r.sig, r.out, r.err
-    c.timed_out, c.cpu_exceeded, c.dir, c.wall = r.timed_out, r.cpu_exceeded, workdir, r.wall
-    obj = os.path.join(workdir, "out", "main.o")
-    c.obj = obj if os.path.exists(obj) else None
-    return c
-
-
-def link_run_fast(workdir, obj, cpu_s=10):
-    exe = os.path.join(workdir, "prog")
-    res = R.Run()
-    res.rc = res.sig = None
-    res.out = res.err = ""
-    res.timed_out = res.cpu_exceeded = False
-    for flags in (["-no-pie"], []):
-        r = fast_proc(["gcc"] + flags + [obj, C.RT_OBJ, "-o", exe, "-lm"], workdir, 60, mem_gb=8)
-        res.link_failed, res.link_err = r.rc != 0, r.err[-800:]
-        if not res.link_failed:
-            break
-    if res.link_failed:
-        return res
-    p = fast_proc([exe], workdir, cpu_s, mem_gb=4)
-    res.rc, res.sig, res.out, res.err = p.rc, p.sig, p.out, p.err
-    res.timed_out, res.cpu_exceeded = p.timed_out, p.cpu_exceeded
-    return res
-
-
 def judge(prog, text, exp, d):
     """compile + link + run + compare. -> dict(status='ok'|'violation'|'inconclusive', ...)"""
-    c = compile_fast(d, {"main.capy": text}, cpu_s=60)
+    c = R.compile_capy(d, {"main.capy": text}, cpu_s=60)
     if c.timed_out or c.cpu_exceeded:
         return {"status": "inconclusive", "why": "compile watchdog"}
     if c.internal_error:
@@ -323,7 +258,7 @@ def judge(prog, text, exp, d):
         shape = re.sub(r"`[^`]*`", "`_`", kinds[0]) if kinds else "no diagnostic"
         return {"status": "violation", "key": "rejected_welltyped", "sig": "rejected_welltyped|" + shape[:80],
                 "what": "a well-typed program is rejected: " + (kinds[0] if kinds else c.brief()[:200]), "observed": strip_noise(c.brief())[:900]}
-    r = link_run_fast(d, c.obj, cpu_s=10)
+    r = R.link_and_run(d, c.obj, cpu_s=10)
     if r.link_failed:
         return {"status": "inconclusive", "why": "link failed: " + r.link_err[-200:]}
     if r.timed_out and not r.cpu_exceeded:
@@ -510,7 +445,7 @@ def run_case(job):
     except Exception as e:      # a bug of the generator / interpreter is never a verdict about capy
         return {"index": index, "status": "inconclusive", "why": "generator exception %s: %s" % (type(e).__name__, e)}
     v = judge(prog, text, exp, d)
-    v.update({"index": index, "constructs": sorted(prog.constructs), "skipped": skipped, "text": text, "prog": prog if v["status"] == "violation" else None,
+    v.update({"index": index, "constructs": sorted(prog.constructs), "skipped": skipped, "text": text, "rt": dict(getattr(prog, "runtime_stats", {})), "prog": prog if v["status"] == "violation" else None,
               "exp": exp})
     return v
 
@@ -543,6 +478,8 @@ def run(tier, seed):
             cnt["discarded_out_of_bounds"] += v["skipped"]["bounds"]
             for c_ in v["constructs"]:
                 hist[c_] = hist.get(c_, 0) + 1
+            for k_, n_ in v["rt"].items():
+                cnt["programs_with_" + k_] = cnt.get("programs_with_" + k_, 0) + 1
             sigs.add(tuple(v["constructs"]))
             if v["status"] == "ok":
                 cnt["accepted"] += 1
